@@ -331,9 +331,186 @@ def verify_format(run):
 
 
 
+# ------------------------------------------------------------------------------------------------ write_from_scope: the grid loop
+def verify_grid_loop(run):
+    """the part of write_from_scope after the resolution is known: digits start at all-zero; every iteration appends the row of coordinates of the
+    current digits (minimum + digit * (maximum - minimum) / max(1, resolution) for an active variable, its last value otherwise) and then takes
+    the successor (contract of Op.increment, proved above); the loop ends exactly when the successor wraps around"""
+    from contracts import wiring as W
+    from pyvc.hlib import init_heap
+    from pyvc.heap import RefV, Ref, NONE, XR, SeqXR, SeqV, x2xr, xr2x, canon, sort_of
+    from pyvc.parsers import ParserExec
+    from pyvc.xreal import X
+    src = run.src
+    fq = "exporter.FldExporter.write_from_scope"
+    fn = src.func("exporter", "FldExporter.write_from_scope")
+    body = body_of(fn)
+    idx = [i for i, st in enumerate(body) if isinstance(st, ast.If) and "AllVariables" in ast.unparse(st.test)]
+    if len(idx) != 1:
+        return
+    rest = body[idx[0] + 1:]
+    sc = W.schema(src)
+    H0 = init_heap(sc)
+    eng, self_ = z3.Const("engine", Ref), z3.Const("self", Ref)
+    ivs = H0["Engine.input_variables"][eng]
+    n = z3.Length(ivs)
+    res = z3.Int("resolution")
+    active = z3.Function("is_active", Ref, z3.BoolSort())
+    D = z3.Function("digits", z3.IntSort(), IntArr)          # ghost: the digits at the head of iteration m
+    RET = z3.Function("incremented_after", z3.IntSort(), z3.BoolSort())
+    mS, iS = z3.Int("m*"), z3.Int("i*")
+    SeqRow = z3.SeqSort(SeqXR)
+    MINV, MAXV, VAL = H0["Variable.minimum"], H0["Variable.maximum"], H0["Variable._value"]
+    ZERO = z3.K(z3.IntSort(), z3.IntVal(0))
+    mxv = z3.Const("max_values", IntArr)
+    calls = []
+
+    def coord(i, d):
+        v = ivs[i]
+        lo, hi = xr2x(MINV[v]), xr2x(MAXV[v])
+        step = xr.div(xr.sub(hi, lo), xr.py_max(xr.const(1.0), X(xr.F, xr.I0, z3.ToReal(res))))
+        return xr.ite(active(v), xr.add(lo, xr.mul(X(xr.F, xr.I0, z3.ToReal(d)), step)), xr2x(VAL[v]))
+
+    def row_ok(row, d):
+        return z3.And(z3.Length(row) == n, z3.Implies(z3.And(0 <= iS, iS < n), x2xr(coord(iS, d[iS])) == row[iS]))
+
+    class IncContract2(Contract):
+        def call(s, ex, p, recv, args, kwargs, node):
+            x, mn_, mx_ = args[:3]
+            x2 = z3.FreshConst(IntArr, "digits_after"); ret = z3.FreshConst(z3.BoolSort(), "incremented")
+            ex.oblige(f"pre/line{node.lineno - ex.fn_line}:the three lists have the same length", p, z3.And(x.n == mn_.n, mn_.n == mx_.n))
+            p.pc.append(z3.If(z3.Or(x.n == 0), z3.And(z3.Not(ret), x2 == x.arr), succ_spec(x.arr, x2, ret, mn_.arr, mx_.arr, x.n - 1, x.n)))
+            for nm, v in list(p.env.items()):
+                if v is x:
+                    p.env[nm] = ArrV(x2, x.n)
+            return Bool(ret, False, True)
+
+    class GridExec(IntListExec, ParserExec):
+        mutating_calls = {"Op.increment": [0]}          # the first argument (the digits) is mutated in place: it belongs to the havoc set of the loop
+
+        def ev_Call(s, p, e):
+            t = ast.unparse(e.func)
+            if t == "Op.increment":
+                return IncContract2().call(s, p, None, [s.ev(p, a) for a in e.args], {}, e)
+            if t == "set" and len(e.args) == 1:
+                return ("set", "given")
+            if isinstance(e.func, ast.Attribute) and e.func.attr == "astype" and ast.unparse(e.args[0]) == "float":
+                return s.ev(p, e.func.value)
+            if t == "self.write":
+                calls.append((p.fork(), [s.ev(p, a) for a in e.args]))
+                return None
+            return super().ev_Call(p, e)
+
+        def np_call(s, p, name, e):
+            if name == "take" and len(e.args) == 2 and ast.unparse(e.args[1]) == "-1":
+                return s.ev(p, e.args[0])           # the last element of the variable's value (a scalar here)
+            if name == "array" and len(e.args) == 1:
+                return s.ev(p, e.args[0])
+            return super().np_call(p, name, e)
+
+        def binop(s, op, l, r, e, p):
+            if isinstance(op, ast.Mult) and isinstance(l, tuple) and l and l[0] == "const-list":
+                return ArrV(z3.K(z3.IntSort(), z3.IntVal(l[1])), toint(s, r, e))
+            return super().binop(op, l, r, e, p)
+
+        def ev_List(s, p, e):
+            if len(e.elts) == 1 and isinstance(e.elts[0], ast.Constant) and isinstance(e.elts[0].value, int):
+                return ("const-list", e.elts[0].value)
+            return super().ev_List(p, e)
+
+        def ev_ListComp(s, p, e):
+            if ast.unparse(e) == "[resolution if iv in active_variables else 0 for iv in engine.input_variables]":
+                i = z3.Int("i")
+                p.pc.append(z3.ForAll([i], z3.Implies(z3.And(0 <= i, i < n), mxv[i] == z3.If(active(ivs[i]), toint(s, p.env["resolution"]), 0))))
+                return ArrV(mxv, n)
+            raise Unsupported(f"list comprehension at line {e.lineno}")
+
+        def contains(s, p, item, coll, e):
+            if isinstance(coll, tuple) and coll and coll[0] == "set" and isinstance(item, RefV):
+                return active(item.r)
+            return super().contains(p, item, coll, e)
+
+        def stmt(s, p, n_):
+            if isinstance(n_, ast.AnnAssign) and isinstance(n_.target, ast.Name) and ast.unparse(n_.annotation) == "list[list[float]]":
+                p.env[n_.target.id] = SeqV(z3.Empty(SeqRow), "seq:num")
+                return [(p, None)]
+            if isinstance(n_, ast.Assign) and len(n_.targets) == 1 and isinstance(n_.targets[0], ast.Name) and isinstance(n_.value, ast.List) and not n_.value.elts:
+                p.env[n_.targets[0].id] = SeqV(z3.Empty(SeqXR), "num")
+                return [(p, None)]
+            return super().stmt(p, n_)
+
+    def rows_of(ex_, p):
+        return ex_.local(p, "input_values").q
+
+    def outer_inv(ex_, p, m, seq):
+        rows = rows_of(ex_, p)
+        sv = p.env["sample_values"]
+        inc = ex_.boo(p.env["incremented"]).b if not isinstance(p.env["incremented"], bool) else z3.BoolVal(p.env["incremented"])
+        i = z3.Int("i")
+        return z3.And(sv.n == n, z3.ForAll([i], z3.Implies(z3.And(0 <= i, i < n), sv.arr[i] == D(m)[i])), z3.Length(rows) == m,
+                      inc == z3.If(m == 0, True, RET(m - 1)),
+                      z3.Implies(z3.And(0 <= mS, mS < m), row_ok(rows[mS], D(mS))),
+                      z3.Implies(z3.And(0 <= mS, mS + 1 < m), RET(mS)),
+                      z3.Implies(z3.And(0 <= mS, mS + 1 <= m), z3.If(n == 0, z3.Not(RET(mS)), succ_spec(D(mS), D(mS + 1), RET(mS), ZERO, mxv, n - 1, n))))
+
+    def outer_ghost(ex_, q, m, seq):
+        sv = q.env["sample_values"]
+        inc = ex_.boo(q.env["incremented"]).b
+        i = z3.Int("i")
+        return [z3.ForAll([i], z3.Implies(z3.And(0 <= i, i < n), D(m + 1)[i] == sv.arr[i])), RET(m) == inc]
+
+    def inner_inv(ex_, p, k, seq):
+        row = ex_.local(p, "row")
+        sv = p.env["sample_values"]
+        if not isinstance(row, SeqV):
+            return k == 0
+        return z3.And(z3.Length(row.q) == k, z3.Implies(z3.And(0 <= iS, iS < k), x2xr(coord(iS, sv.arr[iS])) == row.q[iS]))
+
+    def outer_inst(ex_, p, m, seq):
+        # the invariant holds for every index (it is proved for an arbitrary one): its instance at the last completed iteration
+        return [z3.substitute(outer_inv(ex_, p, m, seq), (mS, m - 1))]
+
+    loops = {0: LoopSpec(outer_inv, ghost=outer_ghost, inst=outer_inst, name="loop0.grid"), 1: LoopSpec(inner_inv, name="loop1.row")}
+    ex = GridExec(src, "exporter", sc, contracts={}, interfaces=W.INTERFACES, inline={"Variable.drange", "Variable.value", "Variable.minimum", "Variable.maximum"}, loops=loops, fnname=fq)
+    ex.skolems = [mS, iS]
+    ex.fn_line = fn.lineno
+    loop_nodes = sorted([(x.lineno, x.col_offset) for st in rest for x in ast.walk(st) if isinstance(x, (ast.For, ast.While))])
+    ex.loop_index = {pos: i for i, pos in enumerate(loop_nodes)}
+    i = z3.Int("i")
+    pre = [eng != NONE, self_ != NONE, res >= 0, n >= 0, z3.ForAll([i], z3.Implies(z3.And(0 <= i, i < n), z3.And(D(0)[i] == 0, ivs[i] != NONE)))]
+    env = {"self": RefV(self_, "FldExporter"), "engine": RefV(eng, "Engine"), "writer": ("opaque", "writer"), "resolution": mkint(res), "active_variables": ("set", "given")}
+    outs = ex.block([HPath(env, pre, H0)], rest)
+    split = []
+    for nm, pc, goal, meta in ex.obls:          # one obligation per conjunct of an invariant (much easier for the solver than the conjunction)
+        if "/inv." in nm and z3.is_and(goal) and goal.num_args() > 1:
+            split += [(f"{nm}&{j}", pc, goal.arg(j), meta) for j in range(goal.num_args())]
+        else:
+            split.append((nm, pc, goal, meta))
+    ex.obls = split
+    emit(run, ex, f"{fq}[grid]", [], RP_FLD)
+    run.add(static(f"{fq}/grid.calls_write_once", len(calls) == 1, f"{len(calls)} call(s) of self.write after the loop", fn=fq, meta={"replay": RP_FLD}))
+    for k, (q, args) in enumerate(calls):
+        rows = args[2].q if len(args) >= 3 and isinstance(args[2], SeqV) else None
+        if rows is None:
+            run.add(static(f"{fq}/grid.rows_passed_to_write[call{k}]", False, "the third argument of write is not the list of rows", fn=fq)); continue
+        M = z3.Length(rows)
+        hy = q.pc
+        run.add(Obl(f"{fq}/grid.first_point_is_all_minimum_digits[call{k}]", hy, z3.And(M >= 1, z3.Implies(z3.And(0 <= iS, iS < n), D(0)[iS] == 0)), fn=fq, meta={"replay": dict(RP_FLD, kwargs={"budget": 40, "only_class": "fld-coordinates"})}, qf=False))
+        run.add(Obl(f"{fq}/grid.row_m_holds_the_coordinates_of_point_m[call{k}]", hy, z3.Implies(z3.And(0 <= mS, mS < M), row_ok(rows[mS], D(mS))), fn=fq, meta={"replay": dict(RP_FLD, kwargs={"budget": 40, "only_class": "fld-coordinates"})}, qf=False))
+        run.add(Obl(f"{fq}/grid.next_point_is_the_successor_last_input_fastest[call{k}]", hy,
+                    z3.Implies(z3.And(0 <= mS, mS + 1 < M), z3.And(RET(mS), z3.If(n == 0, z3.BoolVal(True), succ_spec(D(mS), D(mS + 1), RET(mS), ZERO, mxv, n - 1, n)))), fn=fq,
+                    meta={"replay": dict(RP_FLD, kwargs={"budget": 40, "only_class": "fld-order"})}, qf=False))
+        run.add(Obl(f"{fq}/grid.stops_exactly_at_the_wrap_around[call{k}]", hy,
+                    z3.And(z3.Not(RET(M - 1)), z3.If(n == 0, z3.BoolVal(True), succ_spec(D(M - 1), D(M), RET(M - 1), ZERO, mxv, n - 1, n))), fn=fq,
+                    meta={"replay": dict(RP_FLD, kwargs={"budget": 40, "only_class": "fld-rowcount"})}, qf=False))
+        i2 = z3.Int("i")
+        run.add(Obl(f"{fq}/grid.digit_bounds_are_resolution_for_active_inputs[call{k}]", hy, z3.Implies(z3.And(0 <= iS, iS < n), mxv[iS] == z3.If(active(ivs[iS]), res, 0)), fn=fq, meta={"replay": RP_FLD}, qf=False))
+
+
 def build(run):
     run.assume("A-PY", "A-MSG", "A-LOG")
     plan = [("operation.Op.increment", verify_increment), ("exporter.FldExporter.write_from_scope", verify_resolution),
+            ("exporter.FldExporter.write_from_scope.grid", verify_grid_loop),
             ("exporter.FldExporter.write_from_reader", verify_reader), ("exporter.FldExporter.write", verify_format)]
     for fq, f in plan:
         try:
